@@ -10,7 +10,9 @@ from pathlib import Path
 import faults_C19 as faults
 import writers_C19 as W
 
-SPEC_CALLS = {"mkdtemp", "open_tmp", "write", "close", "unlink_dest", "rename", "rmtree"}
+SPEC_CALLS = {"mkdtemp", "open_tmp", "write", "close", "unlink_dest", "rename", "rmtree", "open_dest", "store"}
+# reading the staged member back is how storing it into an open archive starts
+ROLE_TO_CALL = {"read_tmp": "store"}
 MULTI_EVENT_CALLS = {"mkdtemp", "rmtree", "write"}  # one abstract call = several raw boundaries
 
 # how Fault(c) of the spec is instantiated on the real code: errors a file system can return for the call
@@ -74,6 +76,8 @@ def classify(fname: str, snap: dict, new_payload):
             dest = "Old"
         elif new_payload is not None and W.payload(fname, b) == new_payload:
             dest = "New"
+        elif new_payload is not None and fname.endswith(".zip") and W.payload(fname, b) == W.appended(fname, new_payload):
+            dest = "OldNew"  # the archive holds its previous member(s) followed by the new one
         else:
             dest = "Partial"
     others = {k: v for k, v in snap.items() if k != fname}
@@ -115,7 +119,8 @@ def outcome(res, new_payload):
         kill_role = ev[0]["role"] if ev else None
     fcall = "none"
     if res["mode"] == "fault":
-        fcall = role if role in SPEC_CALLS else "other"
+        role_call = ROLE_TO_CALL.get(role, role)
+        fcall = role_call if role_call in SPEC_CALLS else "other"
     return {"how": how, "fcall": fcall, "role": role, "kill_role": kill_role, "dest": dest, "tmp": tmp, "left": left}
 
 
